@@ -2,7 +2,7 @@ from props import KERNEL, HARNESS, TRANSLATOR, CORR
 
 CONFIG = {
     "props_file": "props/C04.v",
-    "coq_targets": ["props/C04.vo", "model/RulesReadCorr.vo", "proofs/RulesGenProofs.vo"],
+    "coq_targets": ["props/C04.vo", "model/RulesReadCorr.vo", "proofs/RulesReadGenProofs.vo"],
     "runner": "run_scha",
     "gens": ["gen_scha", "gen_id62"],
     "level": "proof",
